@@ -2,8 +2,17 @@
 
 package collection
 
-// C12 correspondence harness: drives the real TimingWheel through its public API with a
-// harness-owned synchronous ticker, one operation per trace line.
+// C12 correspondence harnesses, one operation per trace line, same op language in every mode:
+//
+//	TestVerifC12WB  mode=wb   the run loop is stopped and its handlers (setTask, moveTask, removeTask, onTick,
+//	                          drainAll) are called directly, exactly as the loop's select cases call them; a
+//	                          panic inside a handler is recorded as an observation instead of killing the process
+//	TestVerifC12    mode=api  the real TimingWheel only through its public API (NewTimingWheelWithTicker,
+//	                          SetTimer, MoveTimer, RemoveTimer, Drain, Stop) with a harness-owned ticker:
+//	                          tk=sync an unbuffered ticker, tk=fake timex.NewFakeTicker
+//	                mode=ctor NewTimingWheel's argument check
+//
+// Generation (c12Gen*) is separate from execution: the executors are driven only by the op text.
 
 import (
 	"fmt"
@@ -11,173 +20,691 @@ import (
 	"sort"
 	"strings"
 	"sync"
+	"sync/atomic"
 	"testing"
 	"time"
 
+	"github.com/zeromicro/go-zero/core/timex"
 	"github.com/zeromicro/go-zero/internal/verifh"
 )
 
-// syncTicker hands ticks over an unbuffered channel: Tick returns once the wheel's
-// event loop has received the tick.
-type c12Ticker struct{ c chan time.Time }
+// c12Ticker hands ticks over an unbuffered channel: a send returns once the wheel's event loop
+// has received the tick.
+type c12Ticker struct {
+	c     chan time.Time
+	stops int32
+}
 
 func (t *c12Ticker) Chan() <-chan time.Time { return t.c }
-func (t *c12Ticker) Stop()                  {}
+func (t *c12Ticker) Stop()                  { atomic.AddInt32(&t.stops, 1) }
 
-func c12Gen(r *verifh.Rng) []verifh.Section {
-	var secs []verifh.Section
-	nsec := verifh.Scale(60, 1200)
-	for i := 0; i < nsec; i++ {
-		var n int
-		switch r.Intn(6) {
+// c12Fake is timex.NewFakeTicker with a counter on Stop.
+type c12Fake struct {
+	timex.FakeTicker
+	stops int32
+}
+
+func (t *c12Fake) Stop() {
+	atomic.AddInt32(&t.stops, 1)
+	t.FakeTicker.Stop()
+}
+
+// ---------------------------------------------------------------------------------------------- generation
+
+type c12GenCfg struct {
+	api bool // nil keys, delays <= 0, Stop and calls after Stop
+}
+
+func c12WheelSize(r *verifh.Rng) int {
+	switch r.Intn(6) {
+	case 0:
+		return 1
+	case 1:
+		return 2
+	case 2:
+		return r.Range(3, 5)
+	case 3:
+		return 10
+	case 4:
+		return r.Range(6, 40)
+	default:
+		return r.Range(41, 300)
+	}
+}
+
+// c12Ops generates the op list of one section. It keeps a rough shadow of where each key was last
+// placed (absolute tick of its slot) only to aim delays at interesting slots; nothing depends on it.
+func c12Ops(r *verifh.Rng, n, interval int, g c12GenCfg) []string {
+	nkeys := r.Range(1, 5)
+	if r.Chance(1, 6) {
+		nkeys = r.Range(6, 40) // many timers per slot
+	}
+	var ops []string
+	abs := 0                  // ticks issued so far
+	phys := map[int]int{}     // key -> absolute tick at which the slot it was last placed in is scanned
+	tick := func(c int) {
+		for j := 0; j < c; j++ {
+			ops = append(ops, "tick")
+		}
+		abs += c
+	}
+	// advance the wheel so that tickedPos sits anywhere, including just before/after wrap-around
+	tick(r.Pick(0, 1, n-1, n, n+1, r.Intn(2*n+1)))
+	steps := func(k int) int {
+		var s int
+		switch r.Intn(12) {
+		case 11:
+			// far beyond 32 bits (never due within the section; re-timed, removed or drained later)
+			s = r.Pick(1<<31-1, 1<<31, 1<<32+r.Range(0, 2*n), 1<<40+r.Range(0, n), 1<<52)
 		case 0:
-			n = 1
+			s = 1
 		case 1:
-			n = 2
+			s = r.Range(1, n)
 		case 2:
-			n = r.Range(3, 5)
+			s = n
 		case 3:
-			n = 10
+			s = n + 1
 		case 4:
-			n = r.Range(6, 40)
+			s = r.Range(1, 2*n+1)
+		case 5:
+			s = r.Range(n, 5*n+3)
+		case 6:
+			s = r.Pick(n-1, 2*n-1, 2*n, 2*n+1, 3*n)
+		case 7, 8:
+			// the slot the key was last placed in (same physical slot), possibly whole revolutions later
+			if p, ok := phys[k]; ok {
+				s = ((p-abs)%n+n)%n + n*r.Intn(3)
+			} else {
+				s = r.Range(1, 3*n+2)
+			}
+		case 9:
+			// one slot before / after the slot the key was last placed in
+			if p, ok := phys[k]; ok {
+				s = ((p-abs+r.Pick(-1, 1))%n+n)%n + n*r.Intn(3)
+			} else {
+				s = r.Range(1, n+1)
+			}
 		default:
-			n = r.Range(41, 300)
+			s = r.Range(1, 3*n+2)
 		}
-		interval := r.Pick(1, 7, 1000)
-		nkeys := r.Range(1, 4)
-		var ops []string
-		// advance the wheel so that tickedPos sits anywhere, including just before/after wrap-around
-		pre := r.Pick(0, 1, n-1, n, n+1, r.Intn(2*n+1))
-		for j := 0; j < pre; j++ {
-			ops = append(ops, "tick")
+		if s < 1 {
+			s = n
 		}
-		delay := func() int {
-			var steps int
-			switch r.Intn(8) {
-			case 0:
-				steps = 1
-			case 1:
-				steps = r.Range(1, n)
-			case 2:
-				steps = n
-			case 3:
-				steps = n + 1
-			case 4:
-				steps = r.Range(1, 2*n+1)
-			case 5:
-				steps = r.Range(n, 5*n+3)
-			case 6:
-				steps = r.Pick(n-1, 2*n-1, 2*n, 2*n+1, 3*n)
-				if steps < 1 {
-					steps = 1
+		return s
+	}
+	delay := func(k int) int {
+		s := steps(k)
+		phys[k] = abs + s
+		return s*interval + r.Intn(interval)
+	}
+	key := func() int { return r.Intn(nkeys) }
+	set := func(k int) { ops = append(ops, fmt.Sprintf("set %d %d %d", k, r.Intn(1000), delay(k))) }
+	if nkeys > 5 {
+		for k := 0; k < nkeys; k++ {
+			set(k) // start with every key pending
+		}
+	}
+	move := func(k int) { ops = append(ops, fmt.Sprintf("move %d %d", k, delay(k))) }
+	remove := func(k int) { ops = append(ops, fmt.Sprintf("remove %d", k)) }
+	someTicks := func() {
+		switch r.Intn(4) {
+		case 0:
+			tick(1)
+		case 1:
+			tick(r.Range(1, n+2))
+		case 2:
+			tick(r.Range(0, 3))
+		default:
+			tick(r.Pick(n-1, n, n+1, 2*n))
+		}
+	}
+	nops := r.Range(4, verifh.Scale(50, 80))
+	for j := 0; j < nops; j++ {
+		k := key()
+		switch x := r.Intn(100); {
+		case x < 18:
+			set(k)
+		case x < 38:
+			move(k)
+		case x < 44:
+			remove(k)
+		case x < 47:
+			// delay below one interval (outside the property's quantifier, still compared with the model)
+			if interval > 1 {
+				if r.Bool() {
+					ops = append(ops, fmt.Sprintf("move %d %d", k, r.Range(1, interval-1)))
+				} else {
+					ops = append(ops, fmt.Sprintf("set %d %d %d", k, r.Intn(1000), r.Range(1, interval-1)))
+					phys[k] = abs + 1
 				}
-			default:
-				steps = r.Range(1, 3*n+2)
 			}
-			return steps*interval + r.Intn(interval)
-		}
-		nops := r.Range(4, verifh.Scale(50, 80))
-		for j := 0; j < nops; j++ {
-			k := r.Intn(nkeys)
-			switch x := r.Intn(100); {
-			case x < 22:
-				ops = append(ops, fmt.Sprintf("set %d %d %d", k, r.Intn(1000), delay()))
-			case x < 44:
-				ops = append(ops, fmt.Sprintf("move %d %d", k, delay()))
-			case x < 50:
-				ops = append(ops, fmt.Sprintf("remove %d", k))
-			case x < 52:
-				// delay below one interval (outside the property's quantifier, still compared with the model)
-				if interval > 1 {
-					if r.Bool() {
-						ops = append(ops, fmt.Sprintf("move %d %d", k, r.Range(1, interval-1)))
-					} else {
-						ops = append(ops, fmt.Sprintf("set %d %d %d", k, r.Intn(1000), r.Range(1, interval-1)))
-					}
+		case x < 49:
+			ops = append(ops, "drain")
+			if r.Bool() {
+				set(k) // the key is used again right after Drain
+			}
+		case x < 52:
+			// re-timing chain on one key: set, lazy move, (ticks), move again, …
+			set(k)
+			for c := r.Range(1, 3); c > 0; c-- {
+				if r.Bool() {
+					someTicks()
 				}
-			case x < 53:
-				ops = append(ops, "drain")
-			default:
-				burst := 1
 				if r.Chance(1, 4) {
-					burst = r.Range(1, n+2)
-				}
-				for b := 0; b < burst; b++ {
-					ops = append(ops, "tick")
+					set(k)
+				} else {
+					move(k)
 				}
 			}
+		case x < 55:
+			// a key is removed (or moved to an earlier slot) and set again while the old entry is still parked
+			set(k)
+			if r.Bool() {
+				remove(k)
+			} else {
+				ops = append(ops, fmt.Sprintf("move %d %d", k, interval*r.Range(1, 2)))
+				tick(r.Range(1, 2))
+			}
+			set(k)
+			someTicks()
+			switch r.Intn(3) {
+			case 0:
+				remove(k)
+			case 1:
+				move(k)
+			default:
+				set(k)
+			}
+		case x < 60 && g.api:
+			switch r.Intn(6) {
+			case 0:
+				ops = append(ops, fmt.Sprintf("set nil %d %d", r.Intn(1000), delay(k)))
+			case 1:
+				ops = append(ops, fmt.Sprintf("move nil %d", delay(k)))
+			case 2:
+				ops = append(ops, "remove nil")
+			case 3:
+				ops = append(ops, fmt.Sprintf("set %d %d %d", k, r.Intn(1000), r.Pick(0, -1, -interval, -5*interval)))
+			case 4:
+				ops = append(ops, fmt.Sprintf("move %d %d", k, r.Pick(0, -1, -interval, -5*interval)))
+			default:
+				ops = append(ops, fmt.Sprintf("set nil %d %d", r.Intn(1000), r.Pick(0, -1)))
+			}
+		default:
+			burst := 1
+			if r.Chance(1, 4) {
+				burst = r.Range(1, n+2)
+			}
+			tick(burst)
 		}
-		// run out every pending timer
-		for j := 0; j < 2; j++ {
+	}
+	if g.api && r.Chance(1, 3) {
+		// Stop with timers still pending, then everything again on the stopped wheel
+		ops = append(ops, "stop")
+		for c := r.Range(1, 8); c > 0; c-- {
+			k := key()
+			switch r.Intn(9) {
+			case 0:
+				set(k)
+			case 1:
+				move(k)
+			case 2:
+				remove(k)
+			case 3:
+				ops = append(ops, "drain")
+			case 4:
+				ops = append(ops, "set nil 1 "+fmt.Sprint(interval))
+			case 5:
+				ops = append(ops, fmt.Sprintf("move %d 0", k))
+			case 6:
+				ops = append(ops, "remove nil")
+			default:
+				ops = append(ops, "tick")
+			}
+		}
+		if r.Chance(1, 4) {
+			ops = append(ops, "stop", "tick")
+		}
+		return ops
+	}
+	// run out pending timers
+	tick(r.Pick(2, 2, n+1))
+	return ops
+}
+
+// c12LongOps is one long history on a small wheel: bursts of timers on fresh keys (up to 1500 pending at once,
+// many per slot) that are re-timed, removed and fired, more than 10000 timers in total, so that the timers
+// map goes through SafeMap's deletion generations; then the usual operations on the aged wheel.
+func c12LongOps(r *verifh.Rng, n, interval int) []string {
+	var ops []string
+	key, total := 100, 0
+	tick := func(c int) {
+		for j := 0; j < c; j++ {
 			ops = append(ops, "tick")
 		}
-		secs = append(secs, verifh.Section{Cfg: fmt.Sprintf("n=%d interval=%d", n, interval), Ops: ops})
+	}
+	d := func(maxSteps int) int { return r.Range(1, maxSteps)*interval + r.Intn(interval) }
+	goal := 10500 + r.Intn(1500)
+	for total < goal {
+		b := r.Pick(20, 200, 700, 1200, 1500)
+		base := key
+		for i := 0; i < b; i++ {
+			ops = append(ops, fmt.Sprintf("set %d %d %d", key, r.Intn(1000), d(2*n)))
+			key++
+		}
+		total += b
+		for j := 0; j < b/10; j++ {
+			k := base + r.Intn(b)
+			switch r.Intn(4) {
+			case 0:
+				ops = append(ops, fmt.Sprintf("remove %d", k))
+			case 1:
+				ops = append(ops, fmt.Sprintf("set %d %d %d", k, r.Intn(1000), d(3*n)))
+			default:
+				ops = append(ops, fmt.Sprintf("move %d %d", k, d(3*n)))
+			}
+			if r.Chance(1, 8) {
+				tick(1)
+			}
+		}
+		if r.Chance(1, 10) {
+			ops = append(ops, "drain")
+		}
+		tick(r.Range(1, 3*n+1))
+	}
+	tick(3*n + 1)
+	return append(ops, c12Ops(r, n, interval, c12GenCfg{})...)
+}
+
+func c12GenLong(r *verifh.Rng, mode, tk string) verifh.Section {
+	n := r.Pick(1, 2, 3, 7, 10)
+	interval := r.Pick(1, 7)
+	cfg := fmt.Sprintf("n=%d interval=%d mode=%s long=1", n, interval, mode)
+	if tk != "" {
+		cfg += " tk=" + tk
+	}
+	return verifh.Section{Cfg: cfg, Ops: c12LongOps(r, n, interval)}
+}
+
+func c12GenSections(r *verifh.Rng, nsec int, mode string, tks []string, g c12GenCfg) []verifh.Section {
+	var secs []verifh.Section
+	for i := 0; i < nsec; i++ {
+		n := c12WheelSize(r)
+		interval := r.Pick(1, 7, 1000)
+		cfg := fmt.Sprintf("n=%d interval=%d mode=%s", n, interval, mode)
+		if len(tks) > 0 {
+			cfg += " tk=" + tks[i%len(tks)]
+		}
+		secs = append(secs, verifh.Section{Cfg: cfg, Ops: c12Ops(r, n, interval, g)})
 	}
 	return secs
 }
 
-func TestVerifC12(t *testing.T) {
-	secs := verifh.Sections(c12Gen)
+func c12GenWB(r *verifh.Rng) []verifh.Section {
+	secs := c12GenSections(r, verifh.Scale(90, 3000), "wb", nil, c12GenCfg{})
+	for i := verifh.Scale(1, 3); i > 0; i-- {
+		secs = append(secs, c12GenLong(r, "wb", ""))
+	}
+	return secs
+}
+
+func c12GenAPI(r *verifh.Rng) []verifh.Section {
+	secs := c12GenSections(r, verifh.Scale(90, 2400), "api", []string{"sync", "fake", "sync"}, c12GenCfg{api: true})
+	for i := verifh.Scale(1, 2); i > 0; i-- {
+		secs = append(secs, c12GenLong(r, "api", r.PickS("sync", "fake")))
+	}
+	// NewTimingWheel's argument check
+	var ops []string
+	for i := 0; i < 24; i++ {
+		iv := r.Pick(-1000, -1, 0, 1, 1000)
+		n := r.Pick(-3, -1, 0, 1, 2, 300)
+		if r.Chance(1, 2) {
+			iv = r.Pick(1, 1000)
+		}
+		if r.Chance(1, 2) {
+			n = r.Pick(1, 10)
+		}
+		ops = append(ops, fmt.Sprintf("new %d %d %d", iv, n, r.Pick(0, 0, 1)))
+	}
+	return append(secs, verifh.Section{Cfg: "mode=ctor", Ops: ops})
+}
+
+// ---------------------------------------------------------------------------------------------- execution
+
+type c12Sink struct {
+	mu    sync.Mutex
+	fired []string
+}
+
+func (s *c12Sink) exec(k, v any) {
+	s.mu.Lock()
+	s.fired = append(s.fired, fmt.Sprintf("%v:%v", k, v))
+	s.mu.Unlock()
+}
+
+// collect joins the callback goroutines of the last operation (the goroutine count is back at its resting
+// value *base) and returns what they were handed. A resting value measured too high (some unrelated goroutine
+// was still exiting) corrects itself: the count can never be below the true resting value.
+func (s *c12Sink) collect(base *int) string {
+	if !verifh.SettleGoroutines(*base, 5*time.Second) {
+		return "TIMEOUT-goroutines"
+	}
+	if n := runtime.NumGoroutine(); n < *base {
+		*base = n
+	}
+	s.mu.Lock()
+	out := s.fired
+	s.fired = nil
+	s.mu.Unlock()
+	sort.Slice(out, func(i, j int) bool { return c12Less(out[i], out[j]) })
+	return strings.Join(out, " ")
+}
+
+// c12Less orders `k:v` tokens numerically by key, then value (the driver prints the model's pairs in this order).
+func c12Less(a, b string) bool {
+	var ak, av, bk, bv int
+	if n, _ := fmt.Sscanf(a, "%d:%d", &ak, &av); n != 2 {
+		return a < b
+	}
+	if n, _ := fmt.Sscanf(b, "%d:%d", &bk, &bv); n != 2 {
+		return a < b
+	}
+	if ak != bk {
+		return ak < bk
+	}
+	return av < bv
+}
+
+func c12Key(s string) any {
+	if s == "nil" {
+		return nil
+	}
+	return verifh.Atoi(s)
+}
+
+func c12Err(err error) string {
+	switch err {
+	case ErrArgument:
+		return "err=argument"
+	case ErrClosed:
+		return "err=closed"
+	}
+	return "err=other:" + strings.ReplaceAll(err.Error(), " ", "_")
+}
+
+const c12Sentinel = -1
+
+// c12Worker runs the calls of one section on one long-lived goroutine and gives up on a call after a few
+// seconds (a changed wheel may block a public method or the ticker forever). No goroutine is created per
+// call, so the goroutine count used to join the wheel's callback goroutines stays exact. A panic of the
+// call is re-raised in the caller so that verifh records it.
+type c12Worker struct {
+	req chan func()
+	res chan any
+}
+
+func newC12Worker() *c12Worker {
+	w := &c12Worker{req: make(chan func()), res: make(chan any, 1)}
+	go func() {
+		for f := range w.req {
+			func() {
+				defer func() { w.res <- recover() }()
+				f()
+			}()
+		}
+	}()
+	return w
+}
+
+func (w *c12Worker) do(f func()) bool {
+	w.req <- f
+	t := time.NewTimer(3 * time.Second)
+	defer t.Stop()
+	select {
+	case p := <-w.res:
+		if p != nil {
+			panic(p)
+		}
+		return true
+	case <-t.C:
+		return false
+	}
+}
+
+// c12Base is the number of goroutines at rest: the minimum over a few scheduler rounds, so that a goroutine
+// that is just exiting is not counted.
+func c12Base() int {
+	base := runtime.NumGoroutine()
+	for i := 0; i < 50; i++ {
+		runtime.Gosched()
+		if n := runtime.NumGoroutine(); n < base {
+			base = n
+		}
+	}
+	return base
+}
+
+// TestVerifC12WB: white box. The wheel is built by the real constructor, its run loop is stopped, and the
+// loop's handlers are called directly with the requests the public methods would have sent.
+func TestVerifC12WB(t *testing.T) {
+	secs := verifh.Sections(c12GenWB)
 	verifh.Run(t, secs, func(cfg verifh.Cfg) (func(op []string) string, func()) {
 		n := cfg.Int("n", 1)
 		interval := time.Duration(cfg.Int("interval", 1))
-		var mu sync.Mutex
-		var fired []string
-		exec := func(k, v any) {
-			mu.Lock()
-			fired = append(fired, fmt.Sprintf("%d:%d", k.(int), v.(int)))
-			mu.Unlock()
-		}
-		ticker := &c12Ticker{c: make(chan time.Time)}
-		tw, err := NewTimingWheelWithTicker(interval, n, exec, ticker)
+		sink := &c12Sink{}
+		before := c12Base()
+		tw, err := NewTimingWheelWithTicker(interval, n, sink.exec, &c12Ticker{c: make(chan time.Time)})
 		if err != nil {
 			panic(err)
 		}
-		const sentinel = -1
-		sync := func() {
-			// the event loop is single-threaded: once it accepts this no-op, the previous op is done
-			if err := tw.RemoveTimer(sentinel); err != nil {
-				panic(err)
-			}
+		tw.Stop()
+		if !verifh.SettleGoroutines(before, 5*time.Second) {
+			panic("run loop did not return after Stop")
 		}
-		sync()
-		base := runtime.NumGoroutine()
-		collect := func() string {
-			if !verifh.SettleGoroutines(base, 5*time.Second) {
-				return "TIMEOUT-goroutines"
-			}
-			mu.Lock()
-			out := fired
-			fired = nil
-			mu.Unlock()
-			sort.Strings(out)
-			return strings.Join(out, " ")
-		}
+		base := c12Base()
 		step := func(op []string) string {
-			var err error
 			switch op[0] {
 			case "set":
-				err = tw.SetTimer(verifh.Atoi(op[1]), verifh.Atoi(op[2]), time.Duration(verifh.Atoi(op[3])))
+				if op[1] == "nil" || verifh.Atoi(op[3]) <= 0 {
+					return "bad-op"
+				}
+				task := timingEntry{
+					baseEntry: baseEntry{delay: time.Duration(verifh.Atoi(op[3])), key: verifh.Atoi(op[1])},
+					value:     verifh.Atoi(op[2]),
+				}
+				tw.setTask(&task)
 			case "move":
-				err = tw.MoveTimer(verifh.Atoi(op[1]), time.Duration(verifh.Atoi(op[2])))
+				if op[1] == "nil" || verifh.Atoi(op[2]) <= 0 {
+					return "bad-op"
+				}
+				tw.moveTask(baseEntry{delay: time.Duration(verifh.Atoi(op[2])), key: verifh.Atoi(op[1])})
 			case "remove":
-				err = tw.RemoveTimer(verifh.Atoi(op[1]))
+				if op[1] == "nil" {
+					return "bad-op"
+				}
+				tw.removeTask(verifh.Atoi(op[1]))
 			case "tick":
-				ticker.c <- time.Time{}
+				tw.onTick()
 			case "drain":
-				err = tw.Drain(exec)
+				tw.drainAll(sink.exec)
 			default:
 				return "bad-op"
 			}
-			if err != nil {
-				return "err " + err.Error()
+			return sink.collect(&base)
+		}
+		return step, func() { verifh.SettleGoroutines(base, time.Second) }
+	})
+}
+
+// TestVerifC12: black box through the public API.
+func TestVerifC12(t *testing.T) {
+	secs := verifh.Sections(c12GenAPI)
+	verifh.Run(t, secs, func(cfg verifh.Cfg) (func(op []string) string, func()) {
+		if cfg.Str("mode", "api") == "ctor" {
+			return c12CtorStep, nil
+		}
+		n := cfg.Int("n", 1)
+		interval := time.Duration(cfg.Int("interval", 1))
+		sink := &c12Sink{}
+		var syncT *c12Ticker
+		var fakeT *c12Fake
+		var ticker timex.Ticker
+		if cfg.Str("tk", "sync") == "fake" {
+			fakeT = &c12Fake{FakeTicker: timex.NewFakeTicker()}
+			ticker = fakeT
+		} else {
+			syncT = &c12Ticker{c: make(chan time.Time)}
+			ticker = syncT
+		}
+		before := c12Base()
+		worker := newC12Worker()
+		tw, err := NewTimingWheelWithTicker(interval, n, sink.exec, ticker)
+		if err != nil {
+			panic(err)
+		}
+		stopped := false
+		hung := false // a call did not return: the rest of the section is not executed
+		waitLoop := func() {
+			// the event loop is single-threaded: once it accepts this no-op, the previous request is done
+			if !worker.do(func() {
+				if err := tw.RemoveTimer(c12Sentinel); err != nil && err != ErrClosed {
+					panic(err)
+				}
+			}) {
+				hung = true
 			}
-			sync()
-			return collect()
+		}
+		waitLoop()
+		base := c12Base()
+		stops := func() int32 {
+			if fakeT != nil {
+				return atomic.LoadInt32(&fakeT.stops)
+			}
+			return atomic.LoadInt32(&syncT.stops)
+		}
+		// deliver one tick to the run loop; false if nobody takes it
+		tick := func() (delivered bool, note string) {
+			if fakeT != nil {
+				if stopped && stops() > 0 {
+					// the loop closed the fake ticker's channel: Tick would panic with "send on closed channel"
+					func() {
+						defer func() {
+							if p := recover(); p != nil {
+								note = "undelivered"
+							}
+						}()
+						fakeT.Tick()
+						note = "TICKER-NOT-CLOSED"
+					}()
+					return false, note
+				}
+				if len(fakeT.Chan()) > 0 {
+					return false, "undelivered" // the previous tick is still in the ticker's buffer
+				}
+				fakeT.Tick()
+				deadline := time.Now().Add(2 * time.Second)
+				for i := 0; len(fakeT.Chan()) > 0; i++ {
+					if i > 1000 && time.Now().After(deadline) {
+						return false, "undelivered"
+					}
+					runtime.Gosched()
+				}
+				return true, ""
+			}
+			if !stopped {
+				if !worker.do(func() { syncT.c <- time.Time{} }) {
+					hung = true
+					return false, "TIMEOUT-tick"
+				}
+				return true, ""
+			}
+			for i := 0; i < 200; i++ {
+				select {
+				case syncT.c <- time.Time{}:
+					return true, ""
+				default:
+					runtime.Gosched()
+				}
+			}
+			return false, "undelivered"
+		}
+		step := func(op []string) string {
+			if hung {
+				return "TIMEOUT-skipped"
+			}
+			var err error
+			call := func(f func() error) {
+				if !worker.do(func() { err = f() }) {
+					hung = true
+				}
+			}
+			switch op[0] {
+			case "set":
+				call(func() error {
+					return tw.SetTimer(c12Key(op[1]), verifh.Atoi(op[2]), time.Duration(verifh.Atoi(op[3])))
+				})
+			case "move":
+				call(func() error { return tw.MoveTimer(c12Key(op[1]), time.Duration(verifh.Atoi(op[2]))) })
+			case "remove":
+				call(func() error { return tw.RemoveTimer(c12Key(op[1])) })
+			case "tick":
+				if ok, note := tick(); !ok {
+					return note
+				}
+			case "drain":
+				call(func() error { return tw.Drain(sink.exec) })
+			case "stop":
+				call(func() error { tw.Stop(); return nil }) // a second Stop panics: recorded by verifh as PANIC
+				stopped = true
+				if !verifh.SettleGoroutines(base-1, 2*time.Second) {
+					return "stopped LOOP-ALIVE"
+				}
+				base--
+				return fmt.Sprintf("stopped %d", stops())
+			default:
+				return "bad-op"
+			}
+			if hung {
+				return "TIMEOUT-call"
+			}
+			if err != nil {
+				return c12Err(err)
+			}
+			waitLoop()
+			if hung {
+				return "TIMEOUT-loop"
+			}
+			return sink.collect(&base)
 		}
 		return step, func() {
-			tw.Stop()
-			verifh.SettleGoroutines(base-1, time.Second)
+			if !stopped {
+				tw.Stop()
+			}
+			if !hung {
+				close(worker.req)
+			}
+			verifh.SettleGoroutines(before, 2*time.Second)
 		}
 	})
+}
+
+func c12CtorStep(op []string) string {
+	if op[0] != "new" || len(op) != 4 {
+		return "bad-op"
+	}
+	var exec Execute
+	if op[3] == "0" {
+		exec = func(k, v any) {}
+	}
+	before := c12Base()
+	tw, err := NewTimingWheel(time.Duration(verifh.Atoi(op[1])), verifh.Atoi(op[2]), exec)
+	if err != nil {
+		if tw != nil {
+			return "err-and-wheel"
+		}
+		return "err"
+	}
+	tw.Stop()
+	verifh.SettleGoroutines(before, 2*time.Second)
+	return "ok"
 }
